@@ -684,9 +684,14 @@ def treelevel(facts, name, container_field, res):
             how = "container[position]"
             search_desc = idx
             if gcont is not None:
+                # a position found in a directory of the groups may be bounded by the directory's size: the directory discipline checked
+                # below (filled from the groups in container order, refreshed after every modification) makes the two sizes equal
+                mdir = re.search(r"lower_bound\(begin\(C:([^)]*)\)", idx)
+                sizes = ["size(C:%s)" % gcont] + (["size(C:%s)" % mdir.group(1)] if mdir and mdir.group(1) != gcont else [])
                 for r in facts_on_path:
-                    if r == ("lt", idx, "size(C:%s)" % gcont) or (r[0] == "ne" and set(r[1:]) == {idx, "size(C:%s)" % gcont}):
-                        bound_ok = True
+                    for sz in sizes:
+                        if r == ("lt", idx, sz) or (r[0] == "ne" and set(r[1:]) == {idx, sz}):
+                            bound_ok = True
         need["group position is inside the container (%s)" % ("iterator != end" if how == "*iterator" else "position < size")] = bound_ok
         res.instance(R, "TbfTree::%s" % name, facts.loc(s), "positive return: group by %s; facts on its path: %s" % (how, ["%s(%s)" % (r[0], ",".join(r[1:])) for r in facts_on_path]))
         for k, ok in need.items():
@@ -698,6 +703,10 @@ def treelevel(facts, name, container_field, res):
             res.violation(R, f, fn["qname"], "group-container", s["l"][1], "the group handed back does not come from the tree's '%s' (it comes from %s)" % (container_field, gcont))
             continue
         # ---- how the group was searched: lower_bound over the groups by last index, or over a directory of last indices
+        # `it - begin(C)` is the position of `it` in C, as std::distance(begin(C), it) is
+        md = re.match(r"^\((lower_bound\(begin\(C:([^)]*)\),.*\))-begin\(C:([^)]*)\)\)$", search_desc or "")
+        if md and md.group(2) == md.group(3):
+            search_desc = "pos(" + md.group(1) + ")"
         m_ = re.match(r"^(?:pos\()?lower_bound\(begin\(C:([^)]*)\),end\(C:([^)]*)\),q(?:,lambda\{(.*)\})?\)\)?$", search_desc or "")
         if not m_:
             raise AnalysisBroken("TbfTree::%s: group search not recognised (%s): re-confirm by reading" % (name, search_desc))
